@@ -1,0 +1,32 @@
+//go:build verif
+
+package verifhook
+
+import (
+	"sync/atomic"
+	"time"
+)
+
+var hook atomic.Value // func(point int, args []interface{})
+var tick atomic.Value // chan time.Time
+
+// SetHook installs the event callback. It may block, sleep or yield.
+func SetHook(f func(point int, args []interface{})) { hook.Store(f) }
+
+// SetTick installs the channel refresh listeners additionally listen on.
+func SetTick(ch chan time.Time) { tick.Store(ch) }
+
+// Event reports an event point to the installed callback.
+func Event(point int, args ...interface{}) {
+	if f, ok := hook.Load().(func(int, []interface{})); ok && f != nil {
+		f(point, args)
+	}
+}
+
+// Tick returns the injected tick channel, if any.
+func Tick() <-chan time.Time {
+	if ch, ok := tick.Load().(chan time.Time); ok {
+		return ch
+	}
+	return nil
+}
